@@ -514,12 +514,16 @@ class CFG:
             val._trim_cache[bottomup_only] = val
             return val
 
-        T = {self.S}
+        # top-down pass: start from S only if it is generating, and follow only
+        # the rules that survive (those whose body is entirely generating)
+        T = {self.S} if self.S in C else set()
         agenda.update(T)
         while agenda:
             x = agenda.pop()
             for e in incoming[x]:
                 # assert e.head in T
+                if not all((b in C) for b in e.body):
+                    continue
                 for b in e.body:
                     if b not in T and b in C:
                         T.add(b)
